@@ -116,8 +116,38 @@ def m0_result_is_fresh(prog, ctx, rule="M0"):
             ctx.inconclusive(rule, "the merge result is a new object", st.where, "source of `%s` not understood" % render(rhs)[:50])
 
 
+def m16_copy_is_complete(prog, ctx, rule="M16"):
+    """M16: "nothing is lost": the copy of an entry (cpy_file_entry) takes every text field from the SAME field of its source - group through the
+    destination's group list, key, value and both comments as copies (a missing value / comment stays missing)."""
+    if not prog.has_fn("cpy_file_entry"):
+        ctx.inconclusive(rule, "cpy_file_entry copies every field from its namesake", "", "anchor vanished")
+        return
+    f = prog.fn("cpy_file_entry")
+    ctx.touch(f)
+    for fld in ("key", "value", "comment_before_key", "comment_after_value", "group", "line_number"):
+        sts = [(st, rhs) for lhs, rhs, st, kind in query.stores(f) if kind == "=" and lhs.strip().k == "MemberExpr" and lhs.strip().j.get("member") == fld
+               and lhs.strip().j.get("rec") == "file_entry" and rhs is not None]
+        if not sts:
+            ctx.fail(rule, "cpy_file_entry copies .%s from the source's .%s" % (fld, fld), f.where, "the field is not set", key="copy-field:%s" % fld)
+            continue
+        src = set()
+        for st, rhs in sts:
+            for x in rhs.walk():
+                if x.k == "MemberExpr" and x.j.get("rec") == "file_entry":
+                    src.add(x.j.get("member"))
+        nonnull = [rhs for st, rhs in sts if not rhs.is_null_const()]
+        if src == {fld}:
+            ctx.ok(rule, "cpy_file_entry copies .%s from the source's .%s" % (fld, fld), sts[0][0].where, render(nonnull[0] if nonnull else sts[0][1])[:60])
+        elif not nonnull:
+            ctx.fail(rule, "cpy_file_entry copies .%s from the source's .%s" % (fld, fld), sts[0][0].where,
+                     "the copy's .%s is always NULL: merged entries lose it" % fld, key="copy-field:%s" % fld)
+        else:
+            ctx.fail(rule, "cpy_file_entry copies .%s from the source's .%s" % (fld, fld), sts[0][0].where, "set from %s" % (sorted(src) or "no field of the source"), key="copy-field:%s" % fld)
+
+
 def run(prog, ctx):
     m0_result_is_fresh(prog, ctx)
+    m16_copy_is_complete(prog, ctx)
     m, helpers = helpers_of_merge(prog)
     ctx.touch(m)
     if not helpers:
